@@ -392,6 +392,55 @@ theorem encode_of_decode (bytes : List UInt8) (len : Nat) (a : Addr) (h : Spec.d
     · exact absurd h (by simp)
   · exact absurd h (by simp)
 
+/-! ### lengths beyond the structure -/
+
+theorem encode_append_take_drop {α : Type} (e dest : List α) (sz k : Nat) (he : e.length = sz) (hk : sz ≤ k) :
+    (e ++ dest.drop sz).take k = e ++ (dest.take k).drop sz ∧ (e ++ dest.drop sz).drop k = dest.drop k := by
+  constructor
+  · rw [List.take_append, he, List.take_of_length_le (by omega), List.drop_take]
+  · rw [List.drop_append, he, List.drop_of_length_le (by omega), List.nil_append, List.drop_drop]
+    congr 1; omega
+
+/-- the layout's inverse looks at the first 28 bytes and at whether the length reaches 16 / 28 -/
+theorem decode_congr (b1 b2 : List UInt8) (l1 l2 : Nat) (h : b1.take 28 = b2.take 28) (h1 : 28 ≤ b1.length)
+    (h2 : 28 ≤ b2.length) (hl1 : 28 ≤ l1) (hl2 : 28 ≤ l2) : Spec.decode b1 l1 = Spec.decode b2 l2 := by
+  obtain ⟨c0, c1, c2, c3, c4, c5, c6, c7, c8, c9, c10, c11, c12, c13, c14, c15, c16, c17, c18, c19, c20, c21,
+    c22, c23, c24, c25, c26, c27, r1, rfl⟩ := exists_cons28 (l := b1) h1
+  obtain ⟨d0, d1, d2, d3, d4, d5, d6, d7, d8, d9, d10, d11, d12, d13, d14, d15, d16, d17, d18, d19, d20, d21,
+    d22, d23, d24, d25, d26, d27, r2, rfl⟩ := exists_cons28 (l := b2) h2
+  simp only [List.take_succ_cons, List.take_zero, List.cons.injEq, and_true] at h
+  obtain ⟨rfl, rfl, rfl, rfl, rfl, rfl, rfl, rfl, rfl, rfl, rfl, rfl, rfl, rfl, rfl, rfl, rfl, rfl, rfl, rfl, rfl, rfl,
+    rfl, rfl, rfl, rfl, rfl, rfl⟩ := h
+  have a1 : 16 ≤ l1 := by omega
+  have a2 : 16 ≤ l2 := by omega
+  by_cases h4 : c0 = 2 ∧ c1 = 0
+  · obtain ⟨rfl, rfl⟩ := h4
+    simp [Spec.decode, a1, a2]
+  · by_cases h6 : c0 = 10 ∧ c1 = 0
+    · obtain ⟨rfl, rfl⟩ := h6
+      simp [Spec.decode, hl1, hl2]
+    · rw [decode_none_of_family c0 c1 _ l1 h4 h6, decode_none_of_family c0 c1 _ l2 h4 h6]
+
+theorem decode_inet_len (r : List UInt8) (len : Nat) (h : 16 ≤ len) : Spec.decode (2 :: 0 :: r) len = Spec.decode (2 :: 0 :: r) 16 := by
+  unfold Spec.decode
+  split
+  · rename_i heq
+    simp only [List.cons.injEq] at heq
+    simp [h]
+  · rename_i heq
+    simp only [List.cons.injEq] at heq
+    exact absurd heq.1 (by decide)
+  · rfl
+
+theorem decode_inet6_len (r : List UInt8) (len : Nat) (h : 28 ≤ len) : Spec.decode (10 :: 0 :: r) len = Spec.decode (10 :: 0 :: r) 28 := by
+  unfold Spec.decode
+  split
+  · rename_i heq
+    simp only [List.cons.injEq] at heq
+    exact absurd heq.1 (by decide)
+  · simp [h]
+  · rfl
+
 /-! ### classification -/
 
 theorem u8_zero_iff (b : UInt8) : b = 0 ↔ b.toNat = 0 := by
